@@ -52,7 +52,7 @@ fn sorted(mut v: Vec<String>) -> String { v.sort(); v.dedup(); v.join(",") }
 fn run_generated(names: &[String], rule: &str, input: &str) -> String {
     let obs = Obs::new(input);
     let main = Prog::Fn(rule.to_string());
-    match catch(|| pest::state::<R, _>(input, |s| verif_harness::prog::run(&main, &[], s, &obs))) {
+    match catch(|| pest::state::<R, _>(input, |s| verif_harness::prog::run_fast(&main, &[], s))) {
         Ok(Ok(p)) => format!("ok{}", forest_gen(p, names)),
         Ok(Err(e)) => { let pos = match e.location { InputLocation::Pos(p) => p, InputLocation::Span((a, _)) => a };
             match &e.variant { ErrorVariant::ParsingError { positives, negatives } => format!("err {} [{}] [{}]", pos, sorted(positives.iter().map(|r| name_of(names, *r)).collect()), sorted(negatives.iter().map(|r| name_of(names, *r)).collect())), ErrorVariant::CustomError { .. } => format!("limit {}", pos) } }
